@@ -9,22 +9,22 @@ CLAIMED = {
  "C02": ("4.9", "seeded search over evaluation histories: one object per objective class is shared by a history of evaluations of several feasible packings (decoder-reachable and not: relocated/rotated items, sparse last bins, unsorted rows) held in reused buffers, with the objectives' scratch arrays scribbled between calls; every value is compared with an independent implementation of the documented definition, the declared bounds, the bin-count conversion, earlier values of the same pair and the dominance clause across packings. The universal quantifier over packings is sampled. A clean batch is evidence, not proof.",
          "trusted: the documented definitions re-implemented in simkit/oracles/packing.py (cross-checked on the unchanged tree), numba, numpy",
          "deterministic simulation with fault injection (shared-object evaluation histories, buffer reuse, scratch-state faults vs. reference definitions)"),
- "C04": ("4.6", "seeded search over store/damage/recover cycles of feasible packings: complete log files (real FileLogger/LogParser), to_str text and live arrays are damaged by 0-4 faults (digit flips, dropped/duplicated fields and rows, torn writes, single-field edits, one-dimension-matching sizes, relabelled ids, bin gaps, wrong n_bins/dtype/shape) and validate/from_str/from_log must accept exactly what an independent feasibility predicate accepts, and return the stored packing when undamaged or benignly edited. A clean batch is evidence, not proof.",
+ "C04": ("4.6", "seeded search over histories of store/damage/recover cycles that share one instance and one PackingSpace object: complete log files (real FileLogger/LogParser), to_str text and live arrays are damaged by 0-4 faults (digit flips, dropped/duplicated fields and rows, torn writes, single-field edits, one-dimension-matching sizes, relabelled ids, bin gaps, wrong n_bins/dtype/shape) and validate/from_str/from_log must accept exactly what an independent feasibility predicate accepts (also right after a rejected predecessor), must not turn a well-formed integer list of the wrong length into a packing, and must return the stored packing when undamaged or benignly edited. A clean batch is evidence, not proof.",
          "trusted: the feasibility predicate in simkit/oracles/packing.py, numpy text parsing, moptipy's log reader/writer",
          "deterministic simulation with fault injection (storage corruption / torn writes vs. independent feasibility oracle)"),
- "C06": ("4.2", "seeded search over move histories: the real EA/FEA loops run against a simulated Process that scripts the random index stream (biased to i=0, j=n-2, i=j, full reversal, adjacent, repeated pairs), the start tour and the cancellation instant, plus runs under moptipy's real process observed through a proxy; every hand-over is re-computed with exact integers, EA monotonicity is checked, and the FEA table comes from a simulator-owned guard-banded allocator so that any address outside [0, upper bound] is seen. A clean batch is evidence, not proof.",
+ "C06": ("4.2", "seeded search over move histories: the real EA/FEA loops run against a simulated Process (a full moptipy Process subclass) that scripts the random stream through the numpy Generator interface (index pairs biased to i=0, j=n-2, i=j, full reversal, adjacent, repeated), the start tour, a possibly already known best solution and the cancellation instant; one algorithm object serves several runs; plus runs under moptipy's real process - plain and through its for_fes/from_starting_point sub-process wrappers, short and longer than 16 384 moves - observed through a proxy; every hand-over is re-computed with exact integers, EA monotonicity is checked, and the FEA table comes from a simulator-owned guard-banded allocator so that any address outside [0, upper bound] is seen. A clean batch is evidence, not proof.",
          "trusted: exact integer tour-length oracle, numba/numpy/moptipy; guard band catches out-of-range addresses up to 4x the largest distance + 1024",
          "deterministic simulation with fault injection (scripted process: random stream, cancellation, allocator seam; reference model)"),
  "C10": ("4.3", "seeded search over fault plans: run_ode/multi_run_ode integrate linear plants (stable to exponentially diverging) under controllers and plants that return NaN, +-inf, 1e50, -1e11 or exactly +-1e10 always / after t* / in windows narrower or wider than the output grid / at t=0 only / when a state leaves a box, plus bundled Stuart-Landau and Lorenz systems; every returned array is checked for the row invariants, control = controller(state,t) bit-equality, J/T/differentials against independent formulas (also on non-uniform sub-grids), the analytic solution for fault-free linear loops, and bounded liveness as a call budget. A clean batch is evidence, not proof.",
          "trusted: scipy RK45, math.fsum reference formulas, own matrix exponential; call budget calibrated x50 on the unchanged tree; stiff-but-legal closed loops are excluded from generation and never counted as non-termination",
          "deterministic simulation with fault injection (failing peers as pure functions of simulated time/state; bounded liveness; invariants over the recorded trajectory)"),
- "C11": ("4.4", "seeded search over operation histories on one stateful objective object (evaluate with well-behaved, destabilising and NaN vectors, initialize, set_model with Python/njit/diverging/NaN-after-t model equations, set_raw, get_differentials, ModelObjective cycles, contract-violating calls); after every operation the value is compared bit-for-bit with a fresh objective on a freshly built instance and with the documented aggregate of independently recomputed per-case J, and the collected training data with a ledger that only raw-mode evaluations may extend. A clean batch is evidence, not proof.",
+ "C11": ("4.4", "seeded search over operation histories on one stateful objective object (evaluate with well-behaved, destabilising and NaN vectors, initialize, set_model with Python/njit/diverging/NaN-after-t model equations, set_raw, get_differentials, ModelObjective cycles, models that raise mid-simulation, the real SurrogateOptimizer run on the shared objective with a cancellation injected while it is in model mode, contract-violating calls); after every operation the value is compared bit-for-bit with a fresh objective on a freshly built instance and with the documented aggregate of independently recomputed per-case J, and the collected training data with a ledger that only raw-mode evaluations may extend. A clean batch is evidence, not proof.",
          "trusted: run_ode/j_from_ode (decided by C10), numpy mean/log1p/expm1, numba; model equations and the synthetic system are simulator stubs",
          "deterministic simulation with fault injection (interleaved operation histories on a shared stateful object vs. stateless reference model + ledger)"),
  "C17": ("4.7", "seeded search over generation histories: one InstanceDecoder and one or two Hardness/ErrorsAndHardness objects are driven through decode(x) calls (uniform, clipped-to-the-box and repeated vectors, fresh or reused receivers, 0-8 slack pairs) and objective evaluations on decoded instances and the template, repeated after other instances of the same name; every decoded instance is checked for name, bin size, item count, the area window, lower bound = template bin need and packability by a position-tracking witness layout judged by the independent packing predicate; equal vectors must give equal instances and repeated evaluations equal values, also in a fresh interpreter under another hash seed. A clean batch is evidence, not proof.",
          "trusted: packing feasibility predicate, moptipy Execution/RLS/rand_seeds_from_str; a missing witness is recorded as undecided, never as a violation",
          "deterministic simulation with fault injection (seeded randomness + nested seeded runs under operation histories; replay equality across histories and interpreters; witness construction)"),
- "C12": ("4.5", "seeded search over experiment schedules: a results directory is visited by 1-3 boots, each a fresh interpreter with its own hash seed, simulated clock (fixed, random tick, forward jumps), seeded stand-in for the runner's unseeded shuffles, warm-up settings and growing n_runs lists; a fake peer claims and later completes log files; directory evaluation runs under permuted listing orders; crash points kill a boot at the n-th clock read or after n log bytes and the next boot restarts. Every completed log is compared with a history-free single run in its own interpreter, its solution is checked by independent feasibility predicates and re-evaluated by independent objective implementations (7 packing objectives, tour length, QAP sum, TTP error count; fresh objective in a fresh interpreter for instance generation and controller synthesis), and bin-packing logs are parsed back (Packing.from_log, PackingResult). A clean batch is evidence, not proof.",
+ "C12": ("4.5", "seeded search over experiment schedules: a results directory is visited by 1-3 boots, each a fresh interpreter with its own hash seed, simulated clock (fixed, random tick, forward jumps), seeded stand-in for the runner's unseeded shuffles, warm-up settings and growing n_runs lists; a fake peer claims and later completes log files; directory evaluation runs under permuted listing orders; crash points kill a boot at the n-th clock read or after n log bytes and the next boot restarts. Every completed log is compared with a history-free single run in its own interpreter, its solution is checked by independent feasibility predicates and re-evaluated by independent objective implementations (7 packing objectives, tour length on symmetric and asymmetric instances, QAP sum, TTP error count and travel length incl. every archived solution of the multi-objective example; fresh objective in a fresh interpreter for instance generation and controller synthesis; surrogate-optimizer runs without log files against a fresh-interpreter reference), and bin-packing logs are parsed back (Packing.from_log, PackingResult). A clean batch is evidence, not proof.",
          "trusted: moptipy's claim/skip semantics and log writer, instance loaders, the independent oracles in simkit/oracles; a run in flight at a crash may be lost (moptipy semantics)",
          "deterministic simulation with fault injection (multi-process boots over durable files: schedule, clock, peers, crash/restart; history-free reference runs)"),
  "C14": ("4.1", "seeded search over histories of decodings that share one encoder object and one or two destination packings, with scribbled scratch/destination state injected between operations; every decode is compared row by row with an executable reference model of the documented bottom-left rule. A clean batch is evidence, not proof.",
